@@ -25,6 +25,7 @@ import (
 
 	"golang.org/x/exp/slog"
 	"golang.org/x/telemetry/godev/internal/config"
+	tconfig "golang.org/x/telemetry/internal/config"
 	"golang.org/x/telemetry/internal/telemetry"
 	"golang.org/x/telemetry/internal/verifshim/ref"
 	"golang.org/x/telemetry/internal/verifshim/vrep"
@@ -48,21 +49,26 @@ type zzvServer struct {
 	root    string
 	handler http.Handler
 	cfg     *config.Config
+	upcfg   *telemetry.UploadConfig
 }
 
-func zzvNewServer(base string) *zzvServer {
+func (s *zzvServer) ucfg() *tconfig.Config { return tconfig.NewConfig(s.upcfg) }
+
+func zzvNewServer(base string) *zzvServer { return zzvNewServerCfg(base, zzvServerConfig()) }
+
+func zzvNewServerCfg(base string, ucfg *telemetry.UploadConfig) *zzvServer {
 	root, err := os.MkdirTemp(base, "srv")
 	if err != nil {
 		panic(err)
 	}
 	cfgPath := filepath.Join(root, "config.json")
-	data, _ := json.Marshal(zzvServerConfig())
+	data, _ := json.Marshal(ucfg)
 	os.WriteFile(cfgPath, data, 0o666)
 	store := filepath.Join(root, "storage")
 	cfg := &config.Config{LocalStorage: store, UploadBucket: "uploaded", MergedBucket: "merged", ChartDataBucket: "charted",
 		UploadConfig: cfgPath, MaxRequestBytes: zzvLimit, RequestTimeout: time.Minute}
 	slog.SetDefault(slog.New(slog.NewTextHandler(io.Discard, nil)))
-	return &zzvServer{root: root, handler: newHandler(context.Background(), cfg), cfg: cfg}
+	return &zzvServer{root: root, handler: newHandler(context.Background(), cfg), cfg: cfg, upcfg: ucfg}
 }
 
 func (s *zzvServer) do(method, path string, body []byte) (status int, panicked any) {
